@@ -79,6 +79,11 @@ Proof. intros N. rewrite cpl_app. simpl. apply Nat.eqb_neq in N as ->. lia. Qed.
 Lemma length_app_cons (p : key) x s : length (p ++ x :: s) = S (length p + length s).
 Proof. rewrite app_length. simpl. lia. Qed.
 
+Lemma nth_app_shift (p : key) x r n : nth (length p + S n) (p ++ x :: r) 0 = nth n r 0.
+Proof. induction p; simpl; auto. Qed.
+Lemma skipn_app_shift (p : key) x r n : skipn (S (length p + S n)) (p ++ x :: r) = skipn (S n) r.
+Proof. induction p; simpl; auto. Qed.
+
 Lemma nibbles_ok_app a b : nibbles_ok (a ++ b) <-> nibbles_ok a /\ nibbles_ok b.
 Proof. unfold nibbles_ok. apply Forall_app. Qed.
 Lemma nibbles_ok_cons x a : nibbles_ok (x :: a) <-> x < 16 /\ nibbles_ok a.
@@ -133,10 +138,10 @@ Lemma insert_branch pk ov cs k v :
     else Branch (firstn n k) None (set_child moved (nth n k 0) (Some (Leaf (skipn (S n) k) v))).
 Proof.
   cbn [insert]. destruct (key_eqb k pk); auto. destruct (is_prefix pk k); auto.
-  cbv zeta. f_equal. generalize (nth (cpl k pk) k 0) as i. unfold child_at.
-  induction cs as [|oc r IH]; intros [|i]; simpl; auto.
-  - destruct oc; auto.
-  - now rewrite IH.
+  cbv zeta. f_equal. generalize (nth (cpl k pk) k 0) as i.
+  generalize (skipn (S (cpl k pk)) k) as rk. unfold child_at. intros rk.
+  induction cs as [|oc r IH]; intros [|i]; cbn [set_child nth]; auto.
+  now rewrite IH.
 Qed.
 
 Lemma insert_branch_same pk ov cs v : insert (Branch pk ov cs) pk v = Branch pk (Some v) cs.
@@ -253,10 +258,7 @@ Proof.
   - rewrite insert_in_leaf_key_shorter.
     apply nibbles_ok_app in Hpk as [Hp Hxs]. apply nibbles_ok_cons in Hxs as [Hx Hs].
     destruct (child_one x (Leaf s lv) Hx) as (L & C & E & O). split.
-    + apply Canon_branch'; auto.
-      * apply Forall_one. now constructor.
-      * lia.
-      * unfold occupants. simpl. lia.
+    + apply Canon_branch'; [assumption|assumption|apply Forall_one; now constructor|lia|unfold occupants; cbn [is_some]; lia].
     + intros k'. destruct (under_total k k') as [->|i r' ->|U].
       * keysimp. reflexivity.
       * keysimp. destruct (Nat.eq_dec i x) as [->|Ni].
@@ -268,10 +270,7 @@ Proof.
   - rewrite insert_in_leaf_key_longer.
     apply nibbles_ok_app in Hk as [Hp Hyr]. apply nibbles_ok_cons in Hyr as [Hy Hr].
     destruct (child_one y (Leaf r v) Hy) as (L & C & E & O). split.
-    + apply Canon_branch'; auto.
-      * apply Forall_one. now constructor.
-      * lia.
-      * unfold occupants. simpl. lia.
+    + apply Canon_branch'; [assumption|assumption|apply Forall_one; now constructor|lia|unfold occupants; cbn [is_some]; lia].
     + intros k'. destruct (under_total pk k') as [->|i r' ->|U].
       * keysimp. reflexivity.
       * keysimp. destruct (Nat.eq_dec i y) as [->|Ni].
@@ -284,10 +283,7 @@ Proof.
     apply nibbles_ok_app in Hk as [Hp Hyr]. apply nibbles_ok_cons in Hyr as [Hy Hr].
     apply nibbles_ok_app in Hpk as [_ Hxs]. apply nibbles_ok_cons in Hxs as [Hx Hs].
     destruct (child_two x y (Leaf s lv) (Leaf r v) Hx Hy) as (L & C & Ex & Ey & O); [congruence|]. split.
-    + apply Canon_branch'; auto.
-      * apply Forall_two; now constructor.
-      * lia.
-      * unfold occupants. simpl. lia.
+    + apply Canon_branch'; [assumption|assumption|apply Forall_two; now constructor|lia|unfold occupants; cbn [is_some]; lia].
     + intros k'. destruct (under_total p k') as [->|i r' ->|U].
       * keysimp. reflexivity.
       * keysimp. destruct (Nat.eq_dec i y) as [->|Ny].
@@ -318,29 +314,20 @@ Proof.
     destruct (key_rel_total k pk) as [->|x s ->|y r ->|p y r x s N -> ->].
     + (* overwrite the branch value *)
       rewrite insert_branch_same. split.
-      * apply Canon_branch'; auto. unfold occupants in *. simpl. destruct ov; simpl in *; lia.
+      * apply Canon_branch'; [assumption|assumption|assumption|assumption|unfold occupants in *; cbn [is_some]; lia].
       * intros k'. rewrite !lookup_branch. destruct (key_eqb pk k'); reflexivity.
     + (* the key ends inside the partial key *)
       rewrite insert_branch_key_shorter.
       apply nibbles_ok_app in Hpk as [Hp Hxs]. apply nibbles_ok_cons in Hxs as [Hx Hs].
       destruct (child_one x (Branch s ov cs) Hx) as (L1 & C1' & E & O). split.
-      * apply Canon_branch'; auto.
-        -- apply Forall_one. now constructor.
-        -- lia.
-        -- unfold occupants. simpl. lia.
+      * apply Canon_branch'; [assumption|assumption|apply Forall_one; now apply Canon_branch'|lia|unfold occupants; cbn [is_some]; lia].
       * intros k'. destruct (under_total k k') as [->|i r' ->|U].
-        -- keysimp. rewrite lookup_branch_out by apply is_prefix_longer. reflexivity.
+        -- keysimp. reflexivity.
         -- keysimp. destruct (Nat.eq_dec i x) as [->|Ni].
            ++ rewrite E. cbn [lookup_opt]. rewrite !lookup_branch.
               rewrite key_eqb_app_l, is_prefix_app_inv. cbn [key_eqb is_prefix]. rewrite Nat.eqb_refl. cbn [andb].
               rewrite app_length. cbn [length].
-              destruct (key_eqb s r'); auto. destruct (is_prefix s r') eqn:P; auto.
-              replace (length k + S (length s)) with (length (k ++ [x]) + length s)
-                by (rewrite app_length; simpl; lia).
-              replace (k ++ x :: r') with ((k ++ [x]) ++ r') by (now rewrite <- app_assoc).
-              rewrite app_nth2_plus.
-              replace (S (length (k ++ [x]) + length s)) with (length (k ++ [x]) + S (length s)) by lia.
-              now rewrite <- skipn_skipn, skipn_app_exact.
+              now rewrite nth_app_shift, skipn_app_shift.
            ++ rewrite O by exact Ni. rewrite lookup_branch_out; [reflexivity|].
               rewrite is_prefix_app_inv. simpl. apply Nat.eqb_neq in Ni. now rewrite Nat.eqb_sym, Ni.
         -- rewrite lookup_branch_out, (key_eqb_out_self _ _ U) by exact U.
@@ -353,11 +340,9 @@ Proof.
       destruct (insert_opt_canon (child_at cs y) r v Hr) as [Cc Lc].
       { intros c E. apply (Forall_child_at _ _ _ _ IH E); auto. apply (Forall_child_at _ _ _ _ F E). }
       split.
-      * apply Canon_branch'; auto.
-        -- now rewrite set_child_length.
-        -- apply Forall_set_child; auto.
-        -- rewrite count_children_set_some by lia. lia.
-        -- unfold occupants in *. rewrite count_children_set_some by lia. lia.
+      * apply Canon_branch'; [assumption|now rewrite set_child_length|apply Forall_set_child; auto
+                              |rewrite count_children_set_some by lia; lia
+                              |unfold occupants in *; rewrite count_children_set_some by lia; lia].
       * intros k'. destruct (under_total pk k') as [->|i r' ->|U].
         -- keysimp. reflexivity.
         -- keysimp. destruct (Nat.eq_dec i y) as [->|Ni].
@@ -370,10 +355,7 @@ Proof.
       apply nibbles_ok_app in Hk as [Hp Hyr]. apply nibbles_ok_cons in Hyr as [Hy Hr].
       apply nibbles_ok_app in Hpk as [_ Hxs]. apply nibbles_ok_cons in Hxs as [Hx Hs].
       destruct (child_two x y (Branch s ov cs) (Leaf r v) Hx Hy) as (L2 & C2' & Ex & Ey & O); [congruence|]. split.
-      * apply Canon_branch'; auto.
-        -- apply Forall_two; now constructor.
-        -- lia.
-        -- unfold occupants. simpl. lia.
+      * apply Canon_branch'; [assumption|assumption|apply Forall_two; [now apply Canon_branch'|now constructor]|lia|unfold occupants; cbn [is_some]; lia].
       * intros k'. destruct (under_total p k') as [->|i r' ->|U].
         -- keysimp. rewrite lookup_branch_out by apply is_prefix_longer. reflexivity.
         -- keysimp. destruct (Nat.eq_dec i y) as [->|Ny].
@@ -385,13 +367,7 @@ Proof.
               ** rewrite Ex. cbn [lookup_opt]. rewrite !lookup_branch.
                  rewrite key_eqb_app_l, is_prefix_app_inv. cbn [key_eqb is_prefix]. rewrite Nat.eqb_refl. cbn [andb].
                  rewrite app_length. cbn [length].
-                 destruct (key_eqb s r'); auto. destruct (is_prefix s r') eqn:P; auto.
-                 replace (length p + S (length s)) with (length (p ++ [x]) + length s)
-                   by (rewrite app_length; simpl; lia).
-                 replace (p ++ x :: r') with ((p ++ [x]) ++ r') by (now rewrite <- app_assoc).
-                 rewrite app_nth2_plus.
-                 replace (S (length (p ++ [x]) + length s)) with (length (p ++ [x]) + S (length s)) by lia.
-                 now rewrite <- skipn_skipn, skipn_app_exact.
+                 now rewrite nth_app_shift, skipn_app_shift.
               ** rewrite O; [|exact Nx|apply Nat.eqb_neq; exact Ny].
                  rewrite lookup_branch_out; [reflexivity|].
                  rewrite is_prefix_app_inv. simpl. apply Nat.eqb_neq in Nx. now rewrite Nat.eqb_sym, Nx.
